@@ -35,6 +35,9 @@ fn main() {
     unsafe {
         mallopt(-2, 16 << 20); // M_TOP_PAD
         mallopt(-1, 1 << 30); // M_TRIM_THRESHOLD
+        // blocks up to 32 MB come from the arenas too: a hidden copy of a 100 KB row per statement
+        // (what C02 looks for) would otherwise be an mmap/munmap pair per statement on 16 threads
+        mallopt(-3, 32 << 20); // M_MMAP_THRESHOLD
     }
     let args: Vec<String> = std::env::args().collect();
     std::process::exit(driver::main(args));
